@@ -226,7 +226,24 @@ impl Property for P {
                 spec,
                 prior,
             });
-        prop_oneof![4 => wrap_diff, 3 => fill_diff, 2 => fits].boxed()
+        let scaled = (
+            gen::scaled_text_and_width(text_mix, 1200),
+            gen::optspec(og.clone()),
+            any::<bool>(),
+        )
+            .prop_map(|((text, w), mut spec, as_line)| {
+                spec.width = w;
+                if as_line {
+                    Case::WrapDiff {
+                        line: text.replace(['\n', '\r'], " "),
+                        spec,
+                        prior: w % 2 == 1,
+                    }
+                } else {
+                    Case::FillDiff { text, spec }
+                }
+            });
+        prop_oneof![40 => wrap_diff, 30 => fill_diff, 20 => fits, 1 => scaled].boxed()
     }
     fn check(c: &Case, m: Mode) -> Outcome {
         check(c, m)
